@@ -100,6 +100,8 @@ def readback(root):
             if os.path.isdir(fp) and not os.path.islink(fp):
                 out[r] = DIR
                 walk(fp, r)
+            elif os.path.islink(fp) and os.path.isdir(fp):
+                continue   # a link to a folder (the harness's own 'through a symbolic link' spelling) is not part of the tree
             else:
                 with ropen(fp, "rb") as f:
                     out[r] = f.read()
@@ -119,6 +121,8 @@ def snapshot_meta(root):
             out[r] = ("d", None, 0, st.st_mtime_ns, st.st_mode)
             for n in sorted(rl(fp)):
                 one(os.path.join(fp, n), r + "/" + n if r else n)
+        elif os.path.islink(fp):
+            out[r] = ("l", os.readlink(fp).encode(), st.st_size, st.st_mtime_ns, st.st_mode)   # a link is its target text
         else:
             with ropen(fp, "rb") as f:
                 b = f.read()
